@@ -194,7 +194,7 @@ PROPS = {
                   r"fs/temporary-files-only-in-tmp-areas"],
         "lemmas": [],
         "steps": True,
-        "scenario_select": [r"steps/(store_metadata|delete_metadata).*/(W-.*|2P-.*)",
+        "scenario_select": [r"steps/(store_metadata|delete_metadata).*/(W-.*|2P-.*|R1-.*)",
                             r".*/C-check-then-act/.*", r"fs/directories-are-never-removed",
                             r"fs/temporary-files-only-in-tmp-areas"],
         "derived": "locks-metadata",
@@ -268,10 +268,15 @@ PROPS = {
 QUICK_FAULT = ["tag_object: pid already bound to the requested cid",
                "tag_object: pid bound to another cid", "tag_object: first pid of the cid", "tag_object: additional pid of the cid",
                "delete_object: sole reference", "delete_object: shared object",
+               "delete_object: references without the data object",
                "store_metadata: new document", "store_metadata: overwrite",
                "delete_metadata: one format", "delete_metadata: all documents",
                "store_object: duplicate content, additional pid"]
 
+
+# start states added for one property's clause only (the other fault clauses have not been
+# established for them on the unchanged tree)
+FAULT_ONLY_FOR = {"delete_object: references without the data object": {"C08"}}
 
 # heavy jobs are split into 2**bits shards (each follows one side of the first `bits` forks)
 SHARD_BITS = {
@@ -335,6 +340,7 @@ def _jobs_for(prop, all_fn_jobs, tier="quick"):
     if spec.get("fault"):
         from props import scenarios
         names = list(scenarios.SCENARIOS) if tier == "thorough" else QUICK_FAULT
+        names = [n for n in names if n not in FAULT_ONLY_FOR or prop in FAULT_ONLY_FOR[n]]
         # the heaviest jobs first so that the pool finishes sooner
         names = sorted(names, key=lambda n: (not n.startswith("store_object"), n))
         out = [("fault", n, m) for n in names for m in ("persistent", "one-off")] + out
